@@ -241,7 +241,7 @@ rc::Gen<mcase_t> gen_mcase_of(bool gboost)
                         /*0 pool*/ rc::gen::mapcat(gen::range<int>(1, 4), [](int k) { return rc::gen::container<std::vector<int>>(static_cast<size_t>(k), gen::range<int>(0, 7)); }),
                         /*1 depth*/ gen::range<int>(1, 3), /*2 split*/ gen::range<int>(1, 6), /*3 criterion*/ gen::range<int>(0, 3),
                         /*4 shrinkage*/ rc::gen::element(0, 1, 1, 2), /*5 subsample*/ rc::gen::element(0, 0, 1, 2, 3, 4), /*6 wscale*/ gen::range<int>(0, 1),
-                        /*7 ratio*/ rc::gen::element(1.0, 0.5, 0.8, 0.35), /*8 seed*/ gen::range<int>(0, 1024), /*9 rounds*/ gen::range<int>(10, 12),
+                        /*7 ratio: the whole domain (0, 1], incl. ratio * #train < 1*/ rc::gen::oneOf(rc::gen::element(1.0, 0.5, 0.8, 0.35), rc::gen::element(1.0, 0.5, 0.8, 0.35), gen::logu(1e-3, 1.0), rc::gen::element(1.0, 0.05, 0.01, 0.1)), /*8 seed*/ gen::range<int>(0, 1024), /*9 rounds*/ gen::range<int>(10, 12),
                         /*10 patience*/ gen::range<int>(1, 4),
                         /*11 epsilon*/ rc::gen::oneOf(gen::logu(1e-12, 1e-3), gen::logu(1e-3, 1.0), rc::gen::element(1e-12, 1e-6, 1.0)),
                         /*12 linear model*/ gen::range<int>(0, 5));
@@ -744,7 +744,21 @@ verdict_t check_mcase(const mcase_t& c, ctx_t& ctx)
     // mechanism can reach (over-approximation below) are first fitted in a forked child (no library thread exists at this
     // point: every pool is owned by an object of the case); only if the child is killed by a signal the case is counted
     // under the finding's signature, otherwise it is checked like any other case.
-    bool risky = false, in_child = false;
+    //
+    // second finding (notes/C11.md, "empty subsample"): gboost::subsample != off with subsample_ratio * #train < 1 makes
+    // sampler_t::sample draw floor(ratio * n) = 0 samples; the weak learners are fitted on an EMPTY sample list and
+    // dataset_t::check reads samples.max() of an empty tensor (SIGSEGV).  Predicate: the count is 0 for some fold.
+    const auto splits = s.params.splitter().split(s.samples); // deterministic given its seed parameter
+
+    bool risky = false, in_child = false, empty_subsample = false;
+    if (gboost && c.subsample % 5 != 0)
+    {
+        for (const auto& split : splits)
+        {
+            empty_subsample = empty_subsample || static_cast<tensor_size_t>(c.ratio * static_cast<scalar_t>(split.first.size())) == 0;
+        }
+        risky = empty_subsample;
+    }
     if (gboost && c.wscale % 2 == 1)
     {
         bool tables = false, optional_categorical = false;
@@ -762,7 +776,7 @@ verdict_t check_mcase(const mcase_t& c, ctx_t& ctx)
                 }
             }
         }
-        risky = tables && optional_categorical;
+        risky = risky || (tables && optional_categorical);
     }
     if (risky)
     {
@@ -787,11 +801,18 @@ verdict_t check_mcase(const mcase_t& c, ctx_t& ctx)
             }
             if (WIFSIGNALED(status))
             {
+                if (empty_subsample)
+                {
+                    ctx.label("empty-subsample-crash");
+                    return verdict_t::known("C11/gboost/fit-crash/empty-subsample",
+                                            cat("gboost_model_t::fit killed by signal ", WTERMSIG(status), " (gboost::subsample=", c.subsample % 5, ", subsample_ratio=", c.ratio,
+                                                " x training samples of a fold < 1: the weak learners are fitted on an empty sample list)"));
+                }
                 ctx.label("tboost-empty-table-crash");
                 return verdict_t::known("C11/gboost/fit-crash/tboost-empty-table",
                                         cat("gboost_model_t::fit killed by signal ", WTERMSIG(status), " (wscale=tboost, look-up-table weak learner, categorical input with missing values)"));
             }
-            ctx.label("tboost-probe-survived");
+            ctx.label(empty_subsample ? "empty-subsample-probe-survived" : "tboost-probe-survived");
         }
     }
     // the forked child never returns into the test loop, whichever way it leaves this function (return or exception)
@@ -822,8 +843,6 @@ verdict_t check_mcase(const mcase_t& c, ctx_t& ctx)
     dataset.add<nano::mclass_identity_generator_t>();
     dataset.add<nano::scalar_identity_generator_t>();
     dataset.add<nano::struct_identity_generator_t>();
-
-    const auto splits = s.params.splitter().split(s.samples); // deterministic given its seed parameter
 
     // ---- configure the model (a replay file with values outside a parameter's domain is rejected here) -------------
     std::unique_ptr<nano::linear_t> linear;
@@ -1202,6 +1221,8 @@ verdict_t check_mcase(const mcase_t& c, ctx_t& ctx)
         ctx.label_if(merged_models > 0, "fold-model-merged-weak-learners");
         ctx.label_if(monitor_ambiguous > 0, "monitor-history-ambiguous");
         ctx.label_if(train_stops > 0, "stopped-by-training-error");
+        ctx.label_if(c.subsample % 5 != 0 && c.ratio < 0.3, "subsample-ratio<0.3");
+        ctx.label_if(empty_subsample, "subsample-ratio*train<1");
     }
     else
     {
